@@ -150,8 +150,12 @@ def rule_slots(ck):
                     hf = P.funcs[call_name(ee)]
                     hr = [r for r in returns(hf) if r.value is not None]
                     hx = Expander(P, hf)
-                    ok = bool(hr) and all(isinstance(hx.expand(r.value), ast.Call) and call_name(hx.expand(r.value)) in (
-                        'csep.utils.time_utils.strptime_to_utc_epoch', 'csep.utils.time_utils.datetime_to_utc_epoch') for r in hr)
+                    def _exact(v):
+                        t_ = u(v)
+                        return isinstance(v, ast.Call) and (call_name(v) in (
+                            'csep.utils.time_utils.strptime_to_utc_epoch', 'csep.utils.time_utils.datetime_to_utc_epoch')
+                            or (t_.startswith('builtins.round(1000.0 * ') and '.timestamp()' in t_))
+                    ok = bool(hr) and all(_exact(hx.expand(r.value)) for r in hr)
                 if not ok and isinstance(ee, ast.Call) and isinstance(ee.func, ast.Lambda):
                     ok = 'builtins.round(1000.0 * ' in txt and '.timestamp()' in txt
                 (oo.ok('epoch milliseconds through an exact/rounded conversion') if ok else
@@ -310,30 +314,31 @@ def rule_rollover(ck):
     for n in all_nodes(p):
         if isinstance(n, ast.Assign) and isinstance(n.targets[0], ast.Subscript) and u(n.targets[0].value) == 'out':
             outk[const_value(n.targets[0].slice)] = u(n.value)
+        # the same table written as one dictionary literal (assigned to `out` or returned)
+        if isinstance(n, (ast.Assign, ast.Return)) and isinstance(n.value, ast.Dict) and \
+                (isinstance(n, ast.Return) or u(n.targets[0]) == 'out'):
+            for k_, v_ in dict_literal_items(n.value):
+                outk[k_] = u(v_)
     for k in ('year', 'month', 'day', 'hour', 'minute', 'second'):
         if outk.get(k) != 'dt.' + k:
             probs.append("out['%s'] is %s" % (k, outk.get(k)))
     (o.fail('; '.join(probs)) if probs else o.ok())
     j = P.func(R + 'jma_csv')
     ex = Expander(P, j)
-    lam = [n for n in all_nodes(j) if isinstance(n, ast.Assign) and u(n.targets[0]) == 'parse_date_string']
-    o = ck.ob('C19-D4.jma', j, lam[0].value if lam else 'parse_date_string', lam[0] if lam else j.node)
-    good = False
-    why = 'JMA timestamps are not converted by round(1000 * strptime(x, "...%z").timestamp())'
-    if lam and isinstance(lam[0].value, ast.Lambda):
-        body = ex.expand(lam[0].value).body
-        want = N.nf("builtins.round(1000.0 * datetime.datetime.strptime(x, '%Y-%m-%dT%H:%M:%S.%f%z').timestamp())")
+    tuples = _event_tuples(P, j)
+    slot = tuples[0][1].elts[1] if len(tuples) == 1 else None
+    o = ck.ob('C19-D4.jma', j, 'JMA origin time conversion', slot if slot is not None else j.node)
+    exj = Expander(P, j, inline_depth=1, keep={'line'})
+    want = N.nf("builtins.round(1000.0 * datetime.datetime.strptime(line[0], '%Y-%m-%dT%H:%M:%S.%f%z').timestamp())")
+    if slot is None:
+        o.fail('jma_csv no longer builds one event tuple per record')
+    else:
+        body = exj.expand(slot)
         if N.nf(body) == want:
-            good = True
+            o.ok('round(1000 * strptime(line[0], %z).timestamp())')
         else:
-            why = 'the JMA time conversion is `%s`; it must use the offset parsed by %%z through .timestamp() (hand-made offset arithmetic ' \
-                  'mishandles negative offsets) and round to milliseconds' % u(body)[:120]
-    elif lam:
-        why = 'parse_date_string is no longer the strptime(...%z).timestamp() conversion'
-    (o.ok('round(1000 * strptime(x, %z).timestamp())') if good else o.fail(why))
-    o = ck.ob('C19-D4.jmause', j, 'origin_time = parse_date_string(line[0])', j.node)
-    ok = any(isinstance(n, ast.Assign) and u(n.targets[0]) == 'origin_time' and u(n.value) == 'parse_date_string(line[0])' for n in all_nodes(j))
-    (o.ok() if ok else o.fail('the origin time is not parse_date_string(line[0])'))
+            o.fail('the JMA time conversion is `%s`; it must parse column 0 with the %%z offset through .timestamp() (hand-made offset '
+                   'arithmetic mishandles negative offsets) and round to milliseconds' % u(body)[:140])
 
 
 def rule_rank(ck):
